@@ -26,6 +26,26 @@ class Unregistered:
         return '<Unregistered>'
 
 
+class BadLen(list):
+    """a list whose len() raises TypeError *inside* the bundled printer: a contained failure that must not change later prints"""
+    def __len__(self):
+        raise TypeError('object of type BadLen has no len()')
+
+
+def _same_name_classes():
+    """two different classes with one module and qualified name (a class redefined in a REPL / produced by a factory):
+    a plain one, and an Enum whose printer is registered lazily by name for its ancestor"""
+    plain = type('Status', (), {'__repr__': lambda self: '<plain Status>'})
+    en = enum.Enum('Status', 'OK FAIL')
+    for c in (plain, en):
+        c.__module__ = 'corpus_values'
+        c.__qualname__ = 'Status'
+    return plain, en
+
+
+_PlainStatus, _EnumStatus = _same_name_classes()
+
+
 class Marked:
     """printed through predicate printers (registered below, in this order): instances may satisfy the first, the second or both"""
     def __init__(self, tags):
@@ -55,6 +75,11 @@ def _register_predicates():
 _register_predicates()
 
 
+def _trailing(v, text):
+    import prettyprinter as pp
+    return pp.trailing_comment(v, text)
+
+
 def corpus():
     dd = collections.defaultdict(list)
     dd['a'].append(1)
@@ -82,6 +107,10 @@ def corpus():
         time.struct_time((2020, 1, 2, 3, 4, 5, 3, 2, -1)), time.struct_time((Unregistered(), 1, 2, 3, 4, 5, 3, 2, -1)),
         [time.struct_time((1999, 12, 31, 23, 59, 59, 4, 365, 0))], os.terminal_size((80, 24)), sys.float_info,
         pathlib.PurePosixPath('//fileserver/projects/' + 'segment/' * 9 + 'end'),
+        # a contained internal failure under a trailing comment, then ordinary trailing comments on the same printers
+        _trailing(BadLen([1, 2]), 'on a failing list'), _trailing([1, 2, 3], 'and so on'), _trailing({'a': 1}, 'dict comment'), _trailing((1, 2), 'tuple comment'),
+        # same-named classes
+        _PlainStatus(), _EnumStatus.OK, [_EnumStatus.FAIL, _PlainStatus()],
         # predicate printers: the first-registered accepting predicate wins, whatever was printed before
         Marked('a'), Marked('b'), Marked('ab'), [Marked('ba'), Marked('b')], Marked('c'),
     ]
